@@ -205,6 +205,11 @@ class Message(BaseMessage):
                    maildir_flags: MaildirFlags) -> MaildirMessage:
         flag_str = maildir_flags.to_maildir(append_msg.flag_set)
         when = append_msg.when or datetime.now()
+        try:
+            datetime.fromtimestamp(when.timestamp())
+        except (ValueError, OverflowError, OSError) as exc:
+            # the file time could not be read back as a local date
+            raise NotSupportedError('Internal date out of range.') from exc
         maildir_msg = RawMaildirMessage(append_msg.literal)
         maildir_msg.set_flags(flag_str)
         maildir_msg.set_subdir('new' if recent else 'cur')
